@@ -215,6 +215,7 @@ func modeC19(in, out, stats string) {
 			rwWrites[m]++
 		}
 		line := map[string]any{"ver": c.Ver, "pattern": c.Pattern, "method": c.Method, "variant": c.Variant,
+			"bulk": strings.HasSuffix(c.Pattern, "/_bulk") || strings.HasSuffix(c.Pattern, "/batch"),
 			"expRO": c.ExpRO, "expRW": c.ExpRW, "ro": a, "rw": b}
 		if len(sample) < 3 && c.ExpRW.Write {
 			sample = append(sample, line)
